@@ -14,6 +14,7 @@ import (
 	"os"
 	"sort"
 	"strconv"
+	"strings"
 	"time"
 
 	"github.com/bytom/bytom/database"
@@ -162,10 +163,19 @@ func replay(d doc) *divergence {
 					r.SignKey = &node.Outside
 				case "cbamount":
 					r.First = first + 1
+				case "cbextra": // the exact reward table plus one more output to a program outside the table
+					r.Others = append(r.Others, node.Reward{Program: []byte{0x52}, Amount: 5})
+				case "version":
+					r.Mutate = func(b *types.Block) { b.Version = 2 }
 				case "ts":
 					r.Timestamp = r.Parent.Timestamp
 				case "merkle":
-					r.Mutate = func(b *types.Block) { b.TransactionsMerkleRoot = bc.NewHash([32]byte{1, 2, 3}) }
+					r.Mutate = func(b *types.Block) { // a wrong root that still depends on the block content (hash ranks are ground by nonce)
+						var w [32]byte
+						copy(w[:], b.Transactions[0].ID.Bytes())
+						w[0] ^= 0x5a
+						b.TransactionsMerkleRoot = bc.NewHash(w)
+					}
 				}
 			})
 			if !ok {
@@ -353,6 +363,15 @@ func replay(d doc) *divergence {
 	return nil
 }
 
+// alsoProps: a wrongly accepted reward coinbase decides C14 as well as C13; a ledger or best-chain
+// divergence on the proposer's own block also concerns C38
+func alsoProps(d *divergence) []string {
+	if d.Prop == "C13" && (strings.HasPrefix(d.What, "ret:cbamount") || strings.HasPrefix(d.What, "ret:cbextra")) {
+		return []string{"C14"}
+	}
+	return nil
+}
+
 func loadCase(path string, want int) (d doc) {
 	vh.EachExport(path, func(idx int, raw []byte) error {
 		if idx == want {
@@ -413,7 +432,7 @@ func main() {
 			}
 			shapes[shape(d)] = true
 			if dv := replay(d); dv != nil {
-				vh.Violation(dv.Prop+":ledger:"+dv.What, dv.Msg, map[string]interface{}{"engine": "ledger", "calls": d.Calls, "obs": d.Obs, "diverges_at": dv.Step, "prop": dv.Prop})
+				vh.Violation(dv.Prop+":ledger:"+dv.What, dv.Msg, map[string]interface{}{"engine": "ledger", "calls": d.Calls, "obs": d.Obs, "diverges_at": dv.Step, "prop": dv.Prop, "also": alsoProps(dv)})
 			}
 			if cases%3000 == 17 {
 				vh.Sample(d.Calls)
